@@ -157,25 +157,42 @@ def run(ctx):
         seqs[json.dumps(h, sort_keys=True)] = h
     if n_exh < 5000 or len(seqs) <= n_exh:
         raise T.MachineryError("too few behaviours (%d exhaustive, %d total)" % (n_exh, len(seqs)))
+    # replayed and decided in batches: the full query tables make a trace large
+    def flush(traces, cases):
+        if traces:
+            ctx.validate(SPEC, "FormatBuilderTrace", "FormatBuilderTrace.cfg", traces, cases=cases, name="recorded-sequences", timeout=1800)
+
+    keep = 1.0 if len(seqs) <= 40000 else 40000.0 / len(seqs)   # thorough: a seeded sample of the depth-4 sequences
     traces, cases = [], []
+    nrep = 0
     for h in seqs.values():
+        if keep < 1.0 and ctx.rng.random() > keep:
+            continue
         ops = [{"op": e["op"], "el": e["el"]} for e in h]
         traces.append(run_ops(ops))
         cases.append({"ops": ops})
+        nrep += 1
         ctx.count()
         if any(e["res"] == "reject" or e["op"] in ("build", "construct") for e in h):
             ctx.nontriv(json.dumps(ops))
-    ctx.extra["tlc_sequences_replayed"] = len(seqs)
+        if len(traces) >= 5000:
+            flush(traces, cases)
+            traces, cases = [], []
+    ctx.extra["tlc_sequences_emitted"] = len(seqs)
+    ctx.extra["tlc_sequences_replayed"] = nrep
     ctx.sample({"tlc_sequence": list(seqs.values())[len(seqs) // 2]})
-    ctx.exhaustive = True
+    ctx.exhaustive = keep >= 1.0
     for _ in range(200 if quick else 5000):
         ops = [ctx.rng.choice(ALL_OPS) for _k in range(ctx.rng.randint(4, 12))]
         traces.append(run_ops(ops))
         cases.append({"ops": ops})
         ctx.count()
         ctx.nontriv(json.dumps(ops))
+        if len(traces) >= 5000:
+            flush(traces, cases)
+            traces, cases = [], []
     ctx.sample({"random_ops": cases[-1]["ops"]})
-    ctx.validate(SPEC, "FormatBuilderTrace", "FormatBuilderTrace.cfg", traces, cases=cases, name="recorded-sequences", timeout=1800)
+    flush(traces, cases)
 
 
 def replay(ctx, path):
